@@ -238,6 +238,19 @@ class Check:
         self._after(o)
         return o
 
+    def path_raised(self, fkey, p):
+        """A path of a function under contract ended in an exception.  ValueError / RuntimeError / NotImplementedError are the
+        code's own refusals and are judged by the contract; a Python programming error (AttributeError, TypeError, KeyError ...)
+        on the symbolic pre-state means that the contract's hand-built state no longer fits the code (a new field, a new
+        helper): nothing is known about that path -- it is recorded as undecided, never skipped."""
+        if isinstance(p.exc, (AttributeError, TypeError, NameError, KeyError, IndexError, UnboundLocalError, AssertionError)):
+            from contracts.common import path_tag
+            qual = fkey.split("::")[-1]
+            self.record(f"{qual}:path_is_within_the_contract[{path_tag(p)}]", fkey, "unknown", "engine",
+                        detail=f"path ended in {type(p.exc).__name__}: {p.exc}"[:240], model={})
+            return True
+        return False
+
     def canary(self, name, fkey, pc, goal):
         """a deliberately false clause: the run is broken if it is 'proved'"""
         r = z3back.prove(pc, goal, timeout_ms=10000)
@@ -414,8 +427,8 @@ class Check:
         if not ded and not bnd:
             self.errors.append("no obligations were generated")
         for fk, f in self.functions.items():
-            if not any(o.function == fk for o in self.obls):
-                if self.out_of_reach:
+            if not any(o.function == fk and (o.kind == "deductive" or f.get("bounded_only")) for o in self.obls):
+                if self.out_of_reach or any(o.status == "unknown" for o in self.obls):
                     self.notes.append(f"no obligations for {fk} (a section was out of reach)")
                 else:
                     self.errors.append(f"function under contract without obligations: {fk}")
